@@ -3,7 +3,7 @@
 import random
 
 from .. import boot
-from ..result import Result, h64
+from ..result import Result, h64, keep_going
 
 fsmsim = None  # imported after boot.init()
 
@@ -362,7 +362,7 @@ def run_shard(spec):
     rng = random.Random(spec['seed'])
     n = 0
     reported = set()
-    while res.elapsed() < spec['budget']:
+    while keep_going(res, spec):
         hseed = rng.getrandbits(48)
         mon, trace, lost_mech = run_history(sim, hseed, res, thorough=spec['tier'] == 'thorough')
         n += 1
